@@ -209,9 +209,24 @@ def regenerate_gen() -> list[str]:
         return [f"translator: {type(e).__name__}: {e}"]
 
 
+COQPROJECT_HEADER = ("-Q theories Geff\n-Q props GeffProps\n"
+                     "-arg -w -arg -notation-overridden,-deprecated-hint-without-locality,-deprecated-syntactic-definition\n")
+
+
+def sync_coqproject() -> None:
+    """_CoqProject = header + every .v under theories/ and props/ (order is irrelevant: coqdep sorts).
+    Rewritten only when the file list changes, so an unchanged tree never re-runs coq_makefile."""
+    files = sorted(str(p.relative_to(COQ)) for d in ("theories", "props") for p in (COQ / d).rglob("*.v"))
+    text = COQPROJECT_HEADER + "\n".join(files) + "\n"
+    p = COQ / "_CoqProject"
+    if not p.exists() or p.read_text() != text:
+        p.write_text(text)
+
+
 def coq_make(targets: list[str], timeout=1500) -> tuple[bool, str]:
     """(Re)build the given .vo targets (and their dependencies) under the lock."""
     with CoqLock():
+        sync_coqproject()
         if not (COQ / "Makefile").exists() or (COQ / "_CoqProject").stat().st_mtime > (COQ / "Makefile").stat().st_mtime:
             r = run(["coq_makefile", "-f", "_CoqProject", "-o", "Makefile"], cwd=COQ)
             if r.returncode != 0:
